@@ -5,6 +5,7 @@
 # granted to it by virtue of its status as an intergovernmental organisation
 # nor does it submit to any jurisdiction.
 
+import os
 from contextlib import contextmanager
 from multiprocessing import Manager
 from logging.handlers import QueueListener, QueueHandler
@@ -81,7 +82,49 @@ def init_call(fn, *args, **kwargs):
         init_worker(log_queue=log_queue)
         _initialized = True
 
+    if os.environ.get('LOKI_VERIF') and os.environ.get('LOKI_VERIF_TRACE'):
+        return _verif_traced_call(fn, *args, **kwargs)
+
     return fn(*args, **kwargs)
+
+
+def _verif_traced_call(fn, *args, **kwargs):
+    """
+    Verification hook (only active with ``LOKI_VERIF`` and ``LOKI_VERIF_TRACE`` set):
+    append begin/end events of a queued task to the trace file and, if
+    ``LOKI_VERIF_JITTER=<seed>[:<max_ms>]`` is given, delay the start of the task by a
+    pseudo-random amount derived from the seed and the task arguments.
+    """
+    # pylint: disable=import-outside-toplevel
+    import hashlib
+    import json
+    import time
+
+    key = repr(args[0])[:400] if args else ''
+    name = getattr(fn, '__name__', str(fn))
+    jitter = os.environ.get('LOKI_VERIF_JITTER')
+    if jitter:
+        seed, _, max_ms = jitter.partition(':')
+        digest = hashlib.sha256(f'{seed}|{name}|{key}'.encode()).digest()
+        time.sleep((int.from_bytes(digest[:4], 'big') % (int(max_ms or 50) + 1)) / 1000.)
+
+    def _log(phase, **extra):
+        rec = {'t': time.monotonic_ns(), 'pid': os.getpid(), 'phase': phase, 'fn': name, 'key': key}
+        rec.update(extra)
+        fd = os.open(os.environ['LOKI_VERIF_TRACE'], os.O_WRONLY | os.O_APPEND | os.O_CREAT, 0o644)
+        try:
+            os.write(fd, (json.dumps(rec) + '\n').encode())
+        finally:
+            os.close(fd)
+
+    _log('begin')
+    try:
+        result = fn(*args, **kwargs)
+    except BaseException as e:
+        _log('end', error=type(e).__name__)
+        raise
+    _log('end')
+    return result
 
 
 def wait_and_check(task, timeout=DEFAULT_TIMEOUT, logger=None):
